@@ -9,6 +9,7 @@ import (
 	"github.com/invopop/gobl/cbc"
 	"github.com/invopop/gobl/currency"
 	"github.com/invopop/gobl/internal"
+	"github.com/invopop/gobl/num"
 	"github.com/invopop/gobl/org"
 	"github.com/invopop/gobl/schema"
 	"github.com/invopop/gobl/tax"
@@ -213,19 +214,26 @@ func partyHasTaxIDCode(party *org.Party) bool {
 func (inv *Invoice) Invert() error {
 	payable := inv.Totals.Payable.Invert()
 
+	// Explicit bases and quantities are inverted alongside the amounts, as the
+	// amounts are calculated again from them.
 	for _, row := range inv.Lines {
 		row.Quantity = row.Quantity.Invert()
 		for _, d := range row.Discounts {
+			d.Base = invertAmount(d.Base)
 			d.Amount = d.Amount.Invert()
 		}
 		for _, c := range row.Charges {
+			c.Base = invertAmount(c.Base)
+			c.Quantity = invertAmount(c.Quantity)
 			c.Amount = c.Amount.Invert()
 		}
 	}
 	for _, row := range inv.Charges {
+		row.Base = invertAmount(row.Base)
 		row.Amount = row.Amount.Invert()
 	}
 	for _, row := range inv.Discounts {
+		row.Base = invertAmount(row.Base)
 		row.Amount = row.Amount.Invert()
 	}
 	if inv.Payment != nil {
@@ -246,6 +254,15 @@ func (inv *Invoice) Invert() error {
 	}
 
 	return nil
+}
+
+// invertAmount provides the inverted amount, if there is one.
+func invertAmount(a *num.Amount) *num.Amount {
+	if a == nil {
+		return nil
+	}
+	na := a.Invert()
+	return &na
 }
 
 // Empty is a convenience method that will empty all the lines and
